@@ -64,6 +64,16 @@ public:
   /// See class-level documentation for the ordering invariant.
   virtual ConnectResult connect(const std::string &host, std::uint16_t port,
                                 TlsMode tlsMode) = 0;
+
+  /// \brief connect() for a caller that resolved the host name itself and
+  /// passes an address: \p tlsServerName is the name the peer's certificate
+  /// must be issued for (and the SNI value). Engines without TLS ignore it.
+  virtual ConnectResult connect(const std::string &host, std::uint16_t port, TlsMode tlsMode,
+                                const std::string &tlsServerName)
+  {
+    (void)tlsServerName;
+    return connect(host, port, tlsMode);
+  }
   virtual ConnectResult connectViaListener(ListenerId lid, const std::string &host,
                                            std::uint16_t port) = 0;
   virtual bool close(SessionId sid) = 0;
